@@ -289,6 +289,99 @@ Section BisectR.
     - subst b. exists a. repeat split; try lra; auto.
       destruct Hx as [Hx|Hx]; rewrite Hx; unfold Rabs; destruct (Rcase_abs _); lra.
   Qed.
+  (** ---- a root exactly ON an end point of the initial bracket (sign product = 0) ----
+      range_check accepts such a bracket (sign 0 <> sign f(b)); the update conditions
+      [sign(fa) * sign(fc) == 1 or fc == 0] do NOT move an end point whose f-value is 0
+      (unless the midpoint is itself an exact root, in which case both ends collapse on it):
+      the root end point stays an end point of every later bracket. *)
+  Definition keeps_left (z : R) (a b : R) : Prop := (a = z /\ f z = 0) \/ (a = b /\ f a = 0).
+  Definition keeps_right (z : R) (a b : R) : Prop := (b = z /\ f z = 0) \/ (a = b /\ f a = 0).
+
+  Lemma bis_step_keeps_left z a b :
+    keeps_left z a b -> keeps_left z (fst (bis_step f (a, b))) (snd (bis_step f (a, b))).
+  Proof.
+    unfold keeps_left. intros Hk. rewrite bis_step_R. cbn [fst snd].
+    set (c := (a + b) / 2).
+    destruct Hk as [[Ha Hz]|[Hab Hz]].
+    - subst a. destruct (Req_EM_T (f c) 0) as [Hc|Hc].
+      + rewrite !orb_true_r. right. split; auto.
+      + rewrite !orb_false_r.
+        destruct (Rlt_dec 0 (f z * f c)) as [H1|H1]; [rewrite Hz in H1; lra|].
+        left. split; auto.
+    - subst b. assert (Ec : c = a) by (unfold c; lra). rewrite Ec.
+      destruct (Req_EM_T (f a) 0) as [Hc|Hc]; [|contradiction].
+      rewrite !orb_true_r. right. split; auto.
+  Qed.
+
+  Lemma bis_step_keeps_right z a b :
+    keeps_right z a b -> keeps_right z (fst (bis_step f (a, b))) (snd (bis_step f (a, b))).
+  Proof.
+    unfold keeps_right. intros Hk. rewrite bis_step_R. cbn [fst snd].
+    set (c := (a + b) / 2).
+    destruct Hk as [[Hb Hz]|[Hab Hz]].
+    - subst b. destruct (Req_EM_T (f c) 0) as [Hc|Hc].
+      + rewrite !orb_true_r. right. split; auto.
+      + rewrite !orb_false_r.
+        destruct (Rlt_dec 0 (f c * f z)) as [H1|H1]; [rewrite Hz in H1; lra|].
+        left. split; auto.
+    - subst b. assert (Ec : c = a) by (unfold c; lra). rewrite Ec.
+      destruct (Req_EM_T (f a) 0) as [Hc|Hc]; [|contradiction].
+      rewrite !orb_true_r. right. split; auto.
+  Qed.
+
+  Theorem bis_iter_keeps_left n : forall z a0 b0,
+    keeps_left z a0 b0 ->
+    keeps_left z (fst (bis_iter f n (a0, b0))) (snd (bis_iter f n (a0, b0))).
+  Proof.
+    induction n; intros z a0 b0 H0; cbn [bis_iter]; auto.
+    pose proof (bis_step_keeps_left z a0 b0 H0) as H1.
+    destruct (bis_step f (a0, b0)) as [a1 b1]. cbn [fst snd] in *. apply IHn; exact H1.
+  Qed.
+
+  Theorem bis_iter_keeps_right n : forall z a0 b0,
+    keeps_right z a0 b0 ->
+    keeps_right z (fst (bis_iter f n (a0, b0))) (snd (bis_iter f n (a0, b0))).
+  Proof.
+    induction n; intros z a0 b0 H0; cbn [bis_iter]; auto.
+    pose proof (bis_step_keeps_right z a0 b0 H0) as H1.
+    destruct (bis_step f (a0, b0)) as [a1 b1]. cbn [fst snd] in *. apply IHn; exact H1.
+  Qed.
+
+  (** End-point-root theorem, every n, no continuity needed: if f vanishes on an end point of
+      the initial bracket, then after n passes that end point is still an end point of the
+      bracket (or the bracket collapsed onto another exact root), and the returned point is
+      an EXACT root lying in the initial bracket. *)
+  Theorem bisect_endpoint_root n a0 b0 :
+    a0 <= b0 -> f a0 = 0 \/ f b0 = 0 ->
+    let ab := bis_iter f n (a0, b0) in
+    let x := bis_pick f ab in
+    (f a0 = 0 -> fst ab = a0 \/ (fst ab = snd ab /\ f (fst ab) = 0)) /\
+    (f b0 = 0 -> snd ab = b0 \/ (fst ab = snd ab /\ f (fst ab) = 0)) /\
+    f x = 0 /\ a0 <= x <= b0.
+  Proof.
+    intros H0 Hroot. cbv zeta.
+    destruct (bis_iter_nested n a0 b0 H0) as (N1 & N2 & N3).
+    assert (HL : f a0 = 0 -> keeps_left a0 (fst (bis_iter f n (a0, b0))) (snd (bis_iter f n (a0, b0)))).
+    { intros Hz. apply bis_iter_keeps_left. left; split; auto. }
+    assert (HR : f b0 = 0 -> keeps_right b0 (fst (bis_iter f n (a0, b0))) (snd (bis_iter f n (a0, b0)))).
+    { intros Hz. apply bis_iter_keeps_right. left; split; auto. }
+    destruct (bis_iter f n (a0, b0)) as [a b] eqn:E. cbn [fst snd] in *.
+    destruct (bis_pick_endpoint a b) as (Hx & Hxa & Hxb).
+    split; [|split; [|split]].
+    - intros Hz. destruct (HL Hz) as [[Ha _]|[Hab Hfa]]; [left; exact Ha|right; split; auto].
+    - intros Hz. destruct (HR Hz) as [[Hb _]|[Hab Hfa]]; [left; exact Hb|right; split; auto].
+    - assert (Hend : f a = 0 \/ f b = 0).
+      { destruct Hroot as [Hz|Hz].
+        - destruct (HL Hz) as [[Ha _]|[_ Hfa]]; [left; subst a; exact Hz|left; exact Hfa].
+        - destruct (HR Hz) as [[Hb _]|[_ Hfa]]; [right; subst b; exact Hz|left; exact Hfa]. }
+      assert (Hle : Rabs (f (bis_pick f (a, b))) <= 0).
+      { destruct Hend as [Hz|Hz]; [rewrite Hz, Rabs_R0 in Hxa; exact Hxa|rewrite Hz, Rabs_R0 in Hxb; exact Hxb]. }
+      pose proof (Rabs_pos (f (bis_pick f (a, b)))) as Hp.
+      assert (Habs : Rabs (f (bis_pick f (a, b))) = 0) by lra.
+      destruct (Req_dec (f (bis_pick f (a, b))) 0) as [Hq|Hq]; auto.
+      exfalso. apply (Rabs_no_R0 _ Hq). exact Habs.
+    - destruct Hx as [Hx|Hx]; rewrite Hx; lra.
+  Qed.
 End BisectR.
 
 (** the global break test bounds every element *)
